@@ -481,6 +481,27 @@ func genC14lit(g *G) {
 			add(k, s)
 		}
 	}
+	// (a1') long strings: a multi-byte character at every offset around the powers of two (a generator that
+	// splits, buffers or wraps long text at byte offsets cuts such a character in two)
+	longBases := []int{1023, 1024, 2048, 4096}
+	longKinds := []string{"literal", "strlit", "global"}
+	if !g.Quick() {
+		longBases = []int{127, 128, 255, 256, 511, 512, 1023, 1024, 2047, 2048, 4095, 4096, 8191, 8192, 16384, 32768, 65535, 65536}
+		longKinds = anyKinds
+	}
+	for _, k := range longKinds {
+		for _, base := range longBases {
+			for off := -4; off <= 1; off++ {
+				if base+off < 0 {
+					continue
+				}
+				add(k, strings.Repeat("a", base+off)+"é日😀"+strings.Repeat("b", 7))
+			}
+		}
+		add(k, strings.Repeat("αβγδε ζηθ ", 400))  // 2-byte characters at every parity, 7.6 kB
+		add(k, "x"+strings.Repeat("日本語テキスト", 500)) // 3-byte characters shifted by one, 10 kB
+		add(k, "xy"+strings.Repeat("😀", 1500))     // 4-byte characters shifted by two
+	}
 	// (a2) css names and message text: restricted alphabets (the syntax of the command excludes the rest)
 	cssOK := func(c rune) bool { return c >= 0x20 && c != '{' && c != '}' && c != ',' && c != 0x7f }
 	msgOK := func(c rune) bool {
